@@ -20,7 +20,7 @@ func c21ns(t time.Time) *big.Int {
 }
 
 func runC21(c *ev.Ctx) {
-	c.Rule = "status records whose five guarded timestamps (last connected, P2P synced, became validator, external self-event created / detected) are drawn from {zero time, 1970, now-{0,1ns,th-1,th,th+1}, now+{1ns,th}, +-100y, +-292y+-1s, +-300y, +-10000y} relative to several 'now' values, thresholds from {0,1ns,1s,1h,100y,MaxInt64-1,MaxInt64}, peers in {0,1}; " +
+	c.Rule = "status records whose five guarded timestamps (last connected, P2P synced, became validator, external self-event created / detected) are drawn from {zero time (also as the zero instant carrying a location, which is not the zero struct), 1970, now-{0,1ns,th-1,th,th+1}, now+{1ns,th}, +-100y, +-292y+-1s, +-300y, +-10000y} relative to several 'now' values, thresholds from {0,1ns,1s,1h,100y,MaxInt64-1,MaxInt64}, peers in {0,1}; " +
 		"quick: each field swept over the full value list with the others valid, plus seeded random combinations; thorough: additionally all pairs of fields swept jointly. Oracle (big integers): err==nil <=> peers>0 and P2P synced is set and every timestamp is at least the threshold before now; " +
 		"for a time-based refusal the wait is > 0 and equals min(max over the fields of (threshold - elapsed), MaxInt64); DetectParallelInstance <=> created is not before startup and now - created < threshold. " +
 		"non-trivial = distinct records in which at least one field is exactly at threshold-1ns/threshold/threshold+1ns or beyond +-292 years"
@@ -30,7 +30,8 @@ func runC21(c *ev.Ctx) {
 	nows := []time.Time{time.Unix(1700000000, 123456789), time.Unix(0, 0), time.Unix(4102444800, 999999999), {}, time.Time{}.Add(30 * time.Minute), time.Time{}.Add(1)}
 	year := int64(365 * 24 * 3600)
 	cands := func(now time.Time, th time.Duration) []time.Time {
-		out := []time.Time{{}, time.Unix(0, 0), now, now.Add(-1), now.Add(1)}
+		// the zero instant also in forms that are not the zero struct: with a location attached
+		out := []time.Time{{}, time.Unix(0, 0), now, now.Add(-1), now.Add(1), time.Time{}.In(time.FixedZone("east", 3600)), time.Unix(-62135596800, 0)}
 		if th > 0 && th < math.MaxInt64/2 {
 			out = append(out, now.Add(-th+1), now.Add(-th), now.Add(-th-1), now.Add(th), now.Add(-2*th))
 		}
